@@ -11,7 +11,7 @@ CONT = ["vecint", "vecstr", "setint", "listint", "dequeint", "arr3", "sarr3", "f
         "pqint", "tup", "bits8", "vecbool", "dynbits", "mapsi"]
 ARR = ("arr3", "sarr3")
 NO_UNIQ = ("setint", "stackint", "queueint", "pqint", "tup", "bits8", "vecbool", "dynbits")   # setUniqueData() refused / meaningless
-SORTABLE = ("vecint", "listint", "dequeint", "fwdint", "arr3", "sarr3")
+SORTABLE = ("vecint", "listint", "dequeint", "fwdint", "arr3", "sarr3", "vecstr")
 BITS = ("bits8", "vecbool", "dynbits")                     # values are bit positions; unsetFlag() supported
 GROWBITS = ("vecbool", "dynbits")                          # std::vector<bool>, container::DynamicBitset: grow as needed
 PAIRABLE = ("flag", "int", "str", "dbl", "vecint", "setint", "listint", "dequeint", "vecstr")   # first variable of DEST_PAIR (driver support)
@@ -58,13 +58,16 @@ class Gen:
     def __init__(self, seed, rich=True):
         self.r = random.Random(seed)
         self.rich = rich
+        # now and then the empty text as value of a plain string argument (given as next word "" or as "--key=")
+        self.empty_str = True
 
     # ------------------------------------------------------------ configurations
-    def cfg(self, nargs=None, kinds=None, allow_pos=True, constraints=True, groups=1, exclude=(), subgroups=0, cmd=None):
+    def cfg(self, nargs=None, kinds=None, allow_pos=True, constraints=True, groups=1, exclude=(), subgroups=0, cmd=None, endvalues=0.0):
         """kinds: list to draw the destination kinds from (default: all); exclude: kinds removed from that list.
         subgroups: number of sub-group arguments to add (each with a configuration of its own in a["sub"]);
         cmd: "key" / "pos": add a keyed / positional argument with value mode 'command' (docs/notes_prog_args_subgroups.md).
-        Both are added after everything else, so configurations generated without them do not change."""
+        endvalues: probability that the handler defines the standard argument --endvalues (flag hfEndValues).
+        All three are decided after everything else, so configurations generated without them do not change."""
         r = self.r
         if exclude:
             kinds = [k for k in (kinds or ["flag", "flag", "int", "int", "str", "optint", "dbl", "dbl", "level", "level", "valint", "valint"] + CONT)
@@ -149,6 +152,8 @@ class Gen:
             self.add_subgroup(cfgd, groups)
         if cmd:
             self.add_command(cfgd, cmd, groups)
+        if endvalues and r.random() < endvalues:
+            cfgd["endvalues"] = True
         return cfgd
 
     # ------------------------------------------------------------ sub-groups, command mode
@@ -378,6 +383,9 @@ class Gen:
             if r.random() < 0.05:
                 s = (s[0] + "0" + s[1:]) if s[0] in "+-" else "0" + s
             return s
+        if (self.empty_str and a["kind"] == "str" and a.get("vm") == "req" and not a.get("pos")
+                and not any(c["k"] in ("minlen", "pattern", "values") for c in a["checks"]) and r.random() < 0.06):
+            return ""                       # an empty text is a value like any other
         for c in a["checks"]:
             if c["k"] == "pattern":
                 return r.choice(PAT_GOOD[c["a"]])
@@ -663,7 +671,7 @@ class Gen:
         res = []
         if not cfgd["abbr"]:
             return res
-        longs = [S(a["l"]) for a in args if a["l"]]
+        longs = [S(a["l"]) for a in args if a["l"]] + (["endvalues"] if cfgd.get("endvalues") else [])
         for n in range(2, len(lk)):
             p = lk[:n]
             if p in longs:
@@ -671,6 +679,41 @@ class Gen:
             if sum(1 for x in longs if x.startswith(p)) == 1:
                 res.append(p)
         return res
+
+    def marker_words(self, cfgd):
+        """spellings of the standard argument --endvalues: the key or an unambiguous abbreviation of it."""
+        res = ["--endvalues"]
+        if cfgd.get("abbr", True):
+            longs = [S(a["l"]) for a in cfgd["args"] if a["l"]] + ["endvalues"]
+            for n in range(2, len("endvalues")):
+                p = "endvalues"[:n]
+                if p not in longs and sum(1 for x in longs if x.startswith(p)) == 1:
+                    res.append("--" + p)
+        return res
+
+    def with_markers(self, cfgd, line):
+        """a line of a configuration with --endvalues: markers (uses [0, []]) behind uses of multi-value arguments - several per
+        line -, a positional use moved directly behind a marker (legal only there), now and then a marker without effect."""
+        if line is None or not cfgd.get("endvalues"):
+            return line
+        r = self.r
+        args = cfgd["args"]
+        out = []
+        for u in line:
+            out.append(u)
+            a = args[u[0] - 1]
+            if a["multi"] and not a["pos"] and a["kind"] != "sub" and r.random() < 0.6:
+                out.append([0, []])
+        marks = [k for k, u in enumerate(out) if u[0] == 0]
+        pos = [k for k, u in enumerate(out) if u[0] and args[u[0] - 1]["pos"] and args[u[0] - 1]["vm"] != "cmd"]
+        if marks and pos and r.random() < 0.7:
+            u = out.pop(r.choice(pos))
+            marks = [k for k, x in enumerate(out) if x[0] == 0]
+            out.insert(r.choice(marks) + 1, u)
+        if r.random() < 0.15:
+            last = len(out) - 1 if out and out[-1][0] and args[out[-1][0] - 1]["vm"] == "cmd" else len(out)
+            out.insert(r.randint(0, last), [0, []])
+        return out
 
     def spell_use(self, cfgd, use, force=None):
         """one surface form of a use: list of words; returns (words, form name, groupable short char or None)."""
@@ -739,6 +782,21 @@ class Gen:
     def spell_line(self, cfgd, uses):
         """legal spelling of an abstract line: list of words (strings); None if the line has none (sub-groups: the word behind a
         sub-group would be taken by the sub-group's handler)."""
+        if any(u[0] == 0 for u in uses):
+            # --endvalues markers: the pieces between them are spelled on their own
+            out, seg = [], []
+            for u in list(uses) + [None]:
+                if u is None or u[0] == 0:
+                    w = self.spell_line(cfgd, seg)
+                    if w is None:
+                        return None
+                    out += w
+                    if u is not None:
+                        out.append(self.r.choice(self.marker_words(cfgd)))
+                    seg = []
+                else:
+                    seg.append(u)
+            return out
         if not any(cfgd["args"][u[0] - 1]["kind"] == "sub" for u in uses):
             return self._spell_line(cfgd, uses)
         # lines with sub-groups: spelled piece by piece; the first word behind a sub-group must be unknown to its handler
@@ -1133,10 +1191,15 @@ def mutations(g, cfgd, line):
             if h["k"] == "oneOf" and usedS:
                 add("oneof_none", [x for x in line if x[0] not in S_])
         if h["k"] == "differ" and len(usedS) >= 2:
-            i, j = usedS[0], usedS[1]
+            i, j = (usedS[0], usedS[1]) if len(usedS) == 2 else sorted(r.sample(usedS, 2))
             vi = [x for x in line if x[0] == i][-1][1]
             if vi:
                 add("differ_equal", [[x[0], list(vi)] if x[0] == j else x for x in line])
+            if len(S_) >= 3 and S_[0] in used and S_[-1] in used:
+                # equal values on the first and the last listed argument, the ones between them not used at all
+                vi = [x for x in line if x[0] == S_[0]][-1][1]
+                if vi:
+                    add("differ_equal_gap", [[x[0], list(vi)] if x[0] == S_[-1] else x for x in line if x[0] not in S_[1:-1]])
         if h["k"] == "disjoint" and len(usedS) >= 2:
             i, j = usedS[0], usedS[1]
             vi = [x for x in line if x[0] == i][-1][1]
